@@ -327,7 +327,7 @@ def visit_time_ranges(vobject_item: vobject.base.Component, child_name: str,
                 elif duration is not None:
                     if original_duration is None:
                         original_duration = duration.seconds
-                    if duration.seconds > 0:
+                    if duration > timedelta(0):
                         # Line 2
                         if range_fn(dtstart, dtstart + duration,
                                     is_recurrence):
